@@ -70,14 +70,15 @@ import (
 	"strconv"
 	"strings"
 	"sync"
+	"time"
 )
 
 type costConsts struct{ A1, A0, B1, B0 float64 }
 
 const (
-	costD = 4.0   // per-level coefficient
-	costC = 1.0   // coefficient of n²/4
-	costL = 6.0   // allocation per decoded name byte (both passes), see L above
+	costD = 4.0 // per-level coefficient
+	costC = 1.0 // coefficient of n²/4
+	costL = 6.0 // allocation per decoded name byte (both passes), see L above
 )
 
 func c09HasPtrOctet(b []byte) bool {
@@ -332,9 +333,19 @@ func oracleC09(r *Rng, n int, thorough bool, seeds []string) *OracleResult {
 	failedFam := map[string]bool{}
 	hungFam := map[string]bool{} // a family that hung once is not fed again (20 s of watchdog each)
 
+	budget := 90 * time.Second
+	if thorough {
+		budget = 600 * time.Second
+	}
+	c09FailureSeen.Store(false)
+	c09SkipAfter.Store(time.Now().Add(budget).UnixNano())
 	record := func(cs []costCase, ms []costMeasure) {
 		for i, c := range cs {
 			m := ms[i]
+			if m.Skipped {
+				res.Tags["skipped: failure on record and search budget spent"]++
+				continue
+			}
 			res.Evaluations++
 			if m.N >= 16 {
 				seen[hashStr(c.Entry+string(c.B))] = struct{}{}
@@ -354,6 +365,7 @@ func oracleC09(r *Rng, n int, thorough bool, seeds []string) *OracleResult {
 			}
 			classes, what := c09CheckCost(c.Entry, c.B, m)
 			if m.Hang || m.Died != "" || len(classes) > 0 {
+				c09FailureSeen.Store(true)
 				// a family that failed (or hung) is not fed again at larger sizes:
 				// the smallest failing member is the report, the rest only costs time
 				hungFam[c.Entry+"/"+c.Name] = true
@@ -548,16 +560,16 @@ func c09FinishC09(res *OracleResult, worst *c09WorstTable, seen map[uint64]struc
 //       same constants: measured real/fine ≤ 5.7, real/work6 ≤ 1.4.)
 
 const (
-	c09FitDeepPerSize  = 7.0
-	c09FitDeepConst    = 512.0
-	c09FitSizePerDeep  = 3.0
-	c09FitSizeConst    = 512.0
-	c09FitRealPerFine  = 8.0
-	c09FitRealConst    = 4096.0
-	c09FitFinePerReal  = 2.0
-	c09FitFineConst    = 2048.0
-	c09FitRealPerWork  = 4.0
-	c09FitRealWConst   = 4096.0
+	c09FitDeepPerSize = 7.0
+	c09FitDeepConst   = 512.0
+	c09FitSizePerDeep = 3.0
+	c09FitSizeConst   = 512.0
+	c09FitRealPerFine = 8.0
+	c09FitRealConst   = 4096.0
+	c09FitFinePerReal = 2.0
+	c09FitFineConst   = 2048.0
+	c09FitRealPerWork = 4.0
+	c09FitRealWConst  = 4096.0
 )
 
 var costStreamClient = &costClient{}
